@@ -48,6 +48,10 @@ def cases(tier, seed):
             if n == 3 and tier != "quick" and (hash_small(seq) % 3 != 0):
                 continue      # thorough: every third 3-sequence (243 of 729), all shorter ones
             yield "scene", dict(names=list(seq))
+    # priorized fitting where ONE input source at a time is unusable (its pixel is blank / it lies off the image): every
+    # component of the blind catalogue in turn
+    for names in (["blend2", "point"], ["blend3", "negative"], ["blend2", "blend3"]):
+        yield "rejects", dict(names=names)
     yield "big", dict(kind="blank")
     yield "big", dict(kind="nan_image")
     yield "big", dict(kind="grid7")
@@ -224,6 +228,46 @@ def ev_scene(case, ctx):
     if res.get("blind"):
         ctx.nontrivial(sig)
     ctx.outcome("n_blind=%d" % len(res.get("blind") or []))
+
+
+def ev_rejects(case, ctx):
+    from AegeanTools.models import ComponentSource
+    d = os.environ["VERIF_SCRATCH"]
+    names = case["names"]
+    hdr, img, srcs = scenes.build_scene(names)
+    f = os.path.join(d, "c03r.fits")
+    f2 = os.path.join(d, "c03r_nan.fits")
+    scenes.write_image(f, hdr, img)
+    sig0 = "rejects=" + "+".join(names)
+    try:
+        blind = [s for s in scenes.finder().find_sources_in_image(f, rms=scenes.RMS, bkg=0.0, cores=1, docov=False, nonegative=False)
+                 if isinstance(s, ComponentSource)]
+    except Exception as e:
+        ctx.violation("blind run raised %r (%s)" % (e, sig0), "raise|" + sig0)
+        return
+    for j, victim in enumerate(blind):
+        x, y = wz.sky2pix(hdr, victim.ra, victim.dec)
+        r, c = int(round(float(y) - 1)), int(round(float(x) - 1))
+        bad = np.array(img, dtype=float)
+        bad[max(r - 1, 0):r + 2, max(c - 1, 0):c + 2] = np.nan
+        scenes.write_image(f2, hdr, bad)
+        for stage, regroup in ((1, True), (1, False), (2, True), (3, False)):
+            ctx.count("runs")
+            sig = "%s,victim=%d.%d,stage=%d,regroup=%s" % (sig0, victim.island, victim.source, stage, regroup)
+            ctx.nontrivial(sig)
+            try:
+                out = scenes.finder().priorized_fit_islands(f2, catalogue=[_copy(s) for s in blind], rms=scenes.RMS, bkg=0.0, cores=1, docov=False,
+                                                            stage=stage, doregroup=regroup)
+            except Exception as e:
+                ctx.violation("priorized fit with one source on blank pixels raised %r (%s)" % (e, sig), "raise|" + sig)
+                continue
+            ctx.outcome("rejects_n=%d/%d" % (len(out), len(blind)))
+            if any(s.uuid == victim.uuid for s in out):
+                ctx.outcome("rejects_victim_returned")
+            check_components(out, ctx, sig, priorized=True, input_uuids=set(s.uuid for s in blind))
+    for p_ in (f, f2):
+        if os.path.exists(p_):
+            os.remove(p_)
 
 
 def ev_big(case, ctx):
@@ -410,4 +454,4 @@ def ev_cli(case, ctx):
 
 
 def evaluate(clause, case, ctx):
-    dict(scene=ev_scene, big=ev_big, history=ev_history, cli=ev_cli)[clause](case, ctx)
+    dict(scene=ev_scene, big=ev_big, history=ev_history, cli=ev_cli, rejects=ev_rejects)[clause](case, ctx)
